@@ -580,6 +580,36 @@ pub mod verif_hooks {
         Ok(report)
     }
 
+    /// A public handle on the real replication cycle service (`start_replication_cycle`).
+    pub struct Poller(ReplicationHandle);
+
+    /// Starts the real anti-entropy service of a node: it sleeps for the initial wait, then on
+    /// every tick drains its queue of membership changes and repairs from its live members.
+    pub async fn start_poller<S: Storage>(
+        group: KeyspaceGroup<S>,
+        network: RpcNetwork,
+        repair_interval: Duration,
+    ) -> Poller {
+        Poller(
+            start_replication_cycle(ReplicationCycleContext {
+                repair_interval,
+                group,
+                network,
+            })
+            .await,
+        )
+    }
+
+    impl Poller {
+        pub fn membership_change(&self, changes: MembershipChange) {
+            self.0.membership_change(changes)
+        }
+
+        pub fn kill(&self) {
+            self.0.kill()
+        }
+    }
+
     /// One round of the production loop over the live members (`repair_members`, what every tick
     /// of `replication_cycle` runs after it has drained its queue).
     pub async fn repair_members_once<S: Storage>(
